@@ -204,11 +204,23 @@ def option_tests(f, pred):
             continue
         dl = op_local(tt["discr"])
         o = f.origin_local(dl)
-        if o[0] == "discr" and "Option" in (o[2].get("adt") or ""):
+        if o[0] == "discr" and (o[2].get("adt") or "").startswith("std::option::Option"):
             if pred(deep(f, o[1], 6)):
                 vs = o[2].get("variants") or {}
                 some = [tg for v, tg in tt["targets"] if vs.get(v) == "Some"] or [tt["otherwise"]]
                 none = [tg for v, tg in tt["targets"] if vs.get(v) == "None"] or [tt["otherwise"]]
+                out.append((b, some[0], none[0]))
+            continue
+        if o[0] == "discr" and "ControlFlow" in (o[2].get("adt") or ""):
+            # `opt?`: Continue = Some, Break = None
+            base = o[1]
+            while base and base[0] in ("ref", "cast"):
+                base = base[1]
+            if base and base[0] == "call" and (base[1].get("callee") or "").endswith("Try::branch") and base[1]["args"] \
+                    and "Option" in ((base[1].get("arg_tys") or [""])[0]) and pred(deep(f, base[1]["args"][0], 6)):
+                vs = o[2].get("variants") or {}
+                some = [tg for v, tg in tt["targets"] if vs.get(v) == "Continue"] or [tt["otherwise"]]
+                none = [tg for v, tg in tt["targets"] if vs.get(v) == "Break"] or [tt["otherwise"]]
                 out.append((b, some[0], none[0]))
             continue
         # bool from is_some / is_none (possibly negated)
@@ -238,7 +250,7 @@ def result_tests(f, pred):
         if tt["k"] != "switch" or op_local(tt["discr"]) is None:
             continue
         o = f.origin_local(op_local(tt["discr"]))
-        if o[0] == "discr" and "Result" in (o[2].get("adt") or ""):
+        if o[0] == "discr" and (o[2].get("adt") or "").startswith("std::result::Result"):
             if pred(deep(f, o[1], 6)):
                 vs = o[2].get("variants") or {}
                 ok = [tg for v, tg in tt["targets"] if vs.get(v) == "Ok"] or [tt["otherwise"]]
@@ -424,13 +436,14 @@ def lookup_rules(run):
             ok = (key in ("Index::index(P3, 0_usize)", "P3[0]") and scope == "SymbolManager::get_children(P1, P2)" and rest == "Index::index(P3, RangeFrom{start: 1_usize})"
                   and parent.startswith("Some{") and "HashMap::get(" in parent)
             why = "key `%s` in `%s`, recursion on `%s` below `%s`" % (key, scope, rest, parent)
-            sw = _switch_on_call_result(g, gb, gt)
-            if ok and sw:
-                some, none, sb = sw
+            tests = option_tests(g, lambda d: d.startswith("HashMap::get(SymbolManager::get_children(P1, P2)"))
+            if ok and tests:
+                sb, some, none = tests[0]
                 ok = g.edge_dominates(sb, some, rb)
                 nreg = T.dominated_region(g, none, sb)
-                # not found -> None
-                ok = ok and any(st["k"] == "assign" and st["place"]["l"] == 0 and st["rv"]["k"] == "agg" and st["rv"].get("variant") == "None" for b in nreg for st in g.blocks[b]["stmts"])
+                # not found -> None (written out, or propagated by `?`)
+                ok = ok and (any(st["k"] == "assign" and st["place"]["l"] == 0 and st["rv"]["k"] == "agg" and st["rv"].get("variant") == "None" for b in nreg for st in g.blocks[b]["stmts"])
+                             or any(g.blocks[b]["term"]["k"] == "call" and (g.blocks[b]["term"].get("callee") or "").endswith("FromResidual::from_residual") and g.blocks[b]["term"]["dest"]["l"] == 0 for b in nreg))
             else:
                 ok = False
         run.check(ok, R, R + "|descend|" + name.split("::<T>::")[-1], g.loc(), "%s descends through the first name of the path in the children of the parent and recurses on the rest; a missing name yields nothing" % name.split("::<T>::")[-1],
